@@ -182,4 +182,34 @@ def byIndex (sig : PySig) (i : Nat) : Option Name :=
   else if i == sig.args.length then sig.varargs
   else none
 
+/-! ### rows of the generated table (lean/Yaql/Gen/SigTable.lean) -/
+
+/-- one registered definition: what `inspect.signature(payload)` says, and the entries of `fd.parameters`
+    as (key, python name, position, default present) -/
+structure SigRow where
+  fname : Name
+  args : List Name
+  ndefaults : Nat                   -- the LAST `ndefaults` of `args` have a default
+  varargs : Option Name
+  kwonly : List Name
+  kwdefaults : List Name            -- the keyword-only arguments that have a default
+  varkw : Option Name
+  table : List (Key × Name × Option Nat × Bool)
+
+/-- the signature of a row, with placeholders for the default values -/
+def SigRow.sig (r : SigRow) : PySig :=
+  { args := r.args, defaults := List.replicate r.ndefaults (.value .none), varargs := r.varargs,
+    kwonly := r.kwonly, kwdefaults := r.kwdefaults.map fun n => (n, .value .none), varkw := r.varkw }
+
+def entryOf (p : Param) : Key × Name × Option Nat × Bool := (p.key, p.name, p.position, p.default.isSome)
+
+/-- the table of the row holds exactly the entries (key, name, position, default present) that `define`
+    derives from the signature (whatever the decorators: they do not touch these four columns) -/
+def SigRow.ok (r : SigRow) : Bool :=
+  match define { object := 0, vTrue := 0 } inferByName none r.sig [] with
+  | .ok ps =>
+      let want := ps.map entryOf
+      want.all r.table.contains && r.table.all want.contains && want.length == r.table.length
+  | .error _ => false
+
 end Yaql.Signature
